@@ -561,7 +561,8 @@ class CallMixin:
             body = SB(asz(truthy(body)))
         body = lift(body)
         sort = body.z.sort()
-        used = set(v.get_id() for v in z3.z3util.get_vars(body.z))
+        from engine_base import const_ids
+        used = const_ids(body.z, set(v.get_id() for v in scope))
         implicit = [v for v in scope if v.get_id() in used]
         allp = [j] + formal_leaves + implicit
         canon = [z3.Const('$rv%d_%s' % (i, str(v.sort()).replace(' ', '')), v.sort()) for i, v in enumerate(allp)]
